@@ -14,6 +14,11 @@ Context {V : Type} (o : ops V).
 Definition reducer := V -> V -> Z -> V * Z.
 
 Definition r_sum (cur_sum next_val : V) (count : Z) : V * Z :=
+  if truthy count then (add o cur_sum next_val, count + 1)
+  else (next_val, count + 1).
+
+(* non-skipping sum of timestamps / timedeltas: the in-band integer sentinel stays null *)
+Definition r_nullsum (cur_sum next_val : V) (count : Z) : V * Z :=
   if truthy count then
     if is_null o cur_sum then (cur_sum, count + 1)
     else if is_null o next_val then (next_val, count + 1)
@@ -71,19 +76,19 @@ Definition r_last (cur_last next_val : V) (count : Z) : V * Z :=
   else (next_val, count + 1).
 
 Inductive rname :=
-  | Rsum | Rnansum | Rnansum_squares | Rmax | Rnanmax | Rmin | Rnanmin
+  | Rsum | Rnullsum | Rnansum | Rnansum_squares | Rmax | Rnanmax | Rmin | Rnanmin
   | Rnancount | Rcount | Rfirst | Rlast.
 
 Definition reducer_of (r : rname) : reducer :=
   match r with
-  | Rsum => r_sum | Rnansum => r_nansum | Rnansum_squares => r_nansum_squares
+  | Rsum => r_sum | Rnullsum => r_nullsum | Rnansum => r_nansum | Rnansum_squares => r_nansum_squares
   | Rmax => r_max | Rnanmax => r_nanmax | Rmin => r_min | Rnanmin => r_nanmin
   | Rnancount => r_nancount | Rcount => r_count | Rfirst => r_first | Rlast => r_last
   end.
 
 (* "sum" in name / "count" in name — the substring tests of the Python *)
 Definition name_has_sum (r : rname) : bool :=
-  match r with Rsum | Rnansum | Rnansum_squares => true | _ => false end.
+  match r with Rsum | Rnullsum | Rnansum | Rnansum_squares => true | _ => false end.
 Definition name_has_count (r : rname) : bool :=
   match r with Rnancount | Rcount => true | _ => false end.
 
@@ -116,4 +121,4 @@ Definition kernel_reducers : list (string * list string) :=
    ("rolling_diff", ["diff"]); ("rolling_max", ["max"]); ("rolling_mean", ["mean"]);
    ("rolling_min", ["min"]); ("rolling_shift", ["shift"]); ("rolling_sum", ["sum"])].
 Definition scalar_func_names : list string :=
-  ["sum"; "nansum"; "nansum_squares"; "max"; "nanmax"; "min"; "nanmin"; "nancount"; "count"; "first"; "last"].
+  ["sum"; "nullsum"; "nansum"; "nansum_squares"; "max"; "nanmax"; "min"; "nanmin"; "nancount"; "count"; "first"; "last"].
